@@ -71,21 +71,39 @@ def seq_direction(e: ast.AST, func, depth=0) -> str | None:
 
 
 def guard_kind(loop: ast.For, power_name: str) -> str | None:
-    """'annihilation' if the loop body runs only for power > 0, 'creation' if only for power < 0."""
+    """'annihilation' if the loop body runs only for power > 0, 'creation' if only for power < 0.
+    Accepted guards: `if <skip test>: continue` first in the body, or the whole body under `if <run test>:`."""
     if not loop.body or not isinstance(loop.body[0], ast.If):
         return None
     g = loop.body[0]
-    if not (g.body and isinstance(g.body[0], ast.Continue)) or g.orelse:
+    if g.orelse:
+        return None
+    if g.body and isinstance(g.body[0], ast.Continue):
+        negate = True
+    elif len(loop.body) == 1:
+        negate = False
+    else:
         return None
     runs = {}
     for v in (1, -1, 0):
         it = Interp({power_name: v, "Zero": 0, "One": 1}, RULE)
-        runs[v] = not it.ev(g.test)
+        t = bool(it.ev(g.test))
+        runs[v] = (not t) if negate else t
     if runs == {1: True, -1: False, 0: False}:
         return "annihilation"
     if runs == {1: False, -1: True, 0: False}:
         return "creation"
     return None
+
+
+def guarded_body(loop: ast.For) -> list:
+    """The statements that run for the selected powers (see guard_kind)."""
+    g = loop.body[0]
+    if isinstance(g, ast.If) and g.body and isinstance(g.body[0], ast.Continue):
+        return loop.body[1:]
+    if isinstance(g, ast.If) and len(loop.body) == 1:
+        return g.body
+    return loop.body
 
 
 def lin(e: ast.AST, syms=("to_pair", "op_power", "orig_power", "new_power", "power")):
@@ -162,7 +180,7 @@ def term_orders_as_expr(repo: Repo):
         d = seq_direction(lp.iter, f)
         if d is None:
             raise AnalysisError(RULE, f"as_expr: iteration order of `{norm(lp.iter)}` not understood")
-        upd = [s for s in lp.body if isinstance(s, ast.Assign) and norm(s.targets[0]) == "term"]
+        upd = [s for s in guarded_body(lp) if isinstance(s, ast.Assign) and norm(s.targets[0]) == "term"]
         if len(upd) != 1 or not (isinstance(upd[0].value, ast.BinOp) and isinstance(upd[0].value.op, ast.Mult)):
             raise AnalysisError(RULE, "as_expr: term update not understood")
         v = upd[0].value
@@ -575,14 +593,21 @@ def rule_linear_structure(rep: Report, repo: Repo):
     f = repo.find(f"{CLS}::_eval_adjoint", RULE)
     comp = [n for n in ast.walk(f) if isinstance(n, (ast.GeneratorExp, ast.ListComp)) and "self.args[1]" in norm(n.generators[0].iter)]
     ok = False
-    if comp:
-        e = comp[0].elt
-        names = [norm(x) for x in comp[0].generators[0].target.elts]
-        if isinstance(e, ast.Tuple) and len(e.elts) == 2:
-            p, c = e.elts
-            ok = norm(p) in (f"tuple((-power for power in {names[0]}))", f"tuple((-p for p in {names[0]}))") and \
-                norm(c) in (f"{names[1]}.adjoint()", f"Dagger({names[1]})", f"sympy.adjoint({names[1]})")
-    rep.check(ok, RULE, f"{CLS}._eval_adjoint negates every power and takes the adjoint of every coefficient", "", loc(f))
+    if not comp:
+        raise AnalysisError(RULE, "_eval_adjoint: comprehension over the terms not found")
+    e = comp[0].elt
+    names = [norm(x) for x in comp[0].generators[0].target.elts] if isinstance(comp[0].generators[0].target, ast.Tuple) else []
+    if isinstance(e, ast.Tuple) and len(e.elts) == 2 and len(names) == 2:
+        p, c = e.elts
+        while isinstance(p, ast.Call) and call_name(p) in ("tuple", "list") and len(p.args) == 1:
+            p = p.args[0]
+        neg_each = isinstance(p, (ast.GeneratorExp, ast.ListComp)) and len(p.generators) == 1 and not p.generators[0].ifs \
+            and norm(p.generators[0].iter) == names[0] and isinstance(p.elt, ast.UnaryOp) and isinstance(p.elt.op, ast.USub) \
+            and norm(p.elt.operand) == norm(p.generators[0].target)
+        ok = neg_each and norm(c) in (f"{names[1]}.adjoint()", f"Dagger({names[1]})", f"sympy.adjoint({names[1]})")
+    else:
+        raise AnalysisError(RULE, f"_eval_adjoint: term form `{norm(e)[:60]}` not understood")
+    rep.check(ok, RULE, f"{CLS}._eval_adjoint negates every power and takes the adjoint of every coefficient", norm(e)[:100], loc(f))
     f = repo.find(f"{CLS}::__neg__", RULE)
     comp = [n for n in ast.walk(f) if isinstance(n, (ast.GeneratorExp, ast.ListComp))]
     ok = bool(comp) and norm(comp[0].elt) in ("(powers, -coeff)",)
@@ -591,10 +616,37 @@ def rule_linear_structure(rep: Report, repo: Repo):
     rets = [n for n in own_nodes(f) if isinstance(n, ast.Return) and norm(n.value) != "NotImplemented"]
     rep.check(len(rets) == 1 and norm(rets[0].value) in ("self + -other", "self + (-other)"), RULE, f"{CLS}.__sub__ is self + (-other)", "", loc(f))
     f = repo.find(f"{CLS}::__add__", RULE)
-    loops = [n for n in own_nodes(f) if isinstance(n, ast.For)]
-    ok = len(loops) == 2 and all(norm(l.body[0]) == "new_terms[powers] += coeff" for l in loops) and \
-        sorted(norm(l.iter) for l in loops) == ["other_expanded.args[1]", "self_expanded.args[1]"]
-    rep.check(ok, RULE, f"{CLS}.__add__ merges the terms of both operands by power key", "", loc(f))
+    # merging loops: `for K, C in <src>.args[1]: D[K] += C`; <src> may itself be a loop variable over a tuple of operands
+    un = [n for n in own_nodes(f) if isinstance(n, ast.Assign) and norm(n.value) == "self._combine_operators(other)"
+          and isinstance(n.targets[0], ast.Tuple) and len(n.targets[0].elts) == 2]
+    if len(un) != 1:
+        raise AnalysisError(RULE, "__add__: `a, b = self._combine_operators(other)` not found")
+    operands = sorted(norm(e_) for e_ in un[0].targets[0].elts)
+    sources, dicts, bad_body = [], set(), False
+    for l in own_nodes(f):
+        if not (isinstance(l, ast.For) and isinstance(l.target, ast.Tuple) and len(l.target.elts) == 2):
+            continue
+        k_, c_ = (norm(x) for x in l.target.elts)
+        if not (len(l.body) == 1 and isinstance(l.body[0], ast.AugAssign) and isinstance(l.body[0].op, ast.Add)
+                and isinstance(l.body[0].target, ast.Subscript) and norm(l.body[0].target.slice) == k_ and norm(l.body[0].value) == c_):
+            bad_body = True
+            continue
+        dicts.add(norm(l.body[0].target.value))
+        it = l.iter
+        if not (isinstance(it, ast.Subscript) and norm(it.slice) == "1" and isinstance(it.value, ast.Attribute) and it.value.attr == "args"):
+            raise AnalysisError(RULE, f"__add__: merge loop iterates `{norm(it)[:50]}`")
+        src = it.value.value
+        par = getattr(l, "_parent", None)
+        if isinstance(src, ast.Name) and isinstance(par, ast.For) and isinstance(par.target, ast.Name) and par.target.id == src.id \
+                and isinstance(par.iter, (ast.Tuple, ast.List)):
+            sources += [norm(x) for x in par.iter.elts]
+        else:
+            sources.append(norm(src))
+    if not sources:
+        raise AnalysisError(RULE, "__add__: merge loops not found")
+    ok = not bad_body and sorted(sources) == operands and len(dicts) == 1
+    rep.check(ok, RULE, f"{CLS}.__add__ merges the terms of both operands by power key",
+              f"coefficients of {sorted(sources)} are accumulated into {sorted(dicts)} by power key; operands {operands}", loc(f))
     comb = [n for n in own_nodes(f) if isinstance(n, ast.Assign) and norm(n.value) == "self._combine_operators(other)"]
     rep.check(len(comb) == 1, RULE, f"{CLS}.__add__ brings both operands to a common operator list first", "", loc(f))
     m = repo.find(f"{CLS}::__mul__", RULE)
